@@ -178,3 +178,25 @@ _MORE6 = {
 }
 for _pid, _t in _MORE6.items():
     CHECKS[_pid]["text"] += _t
+_THR = " Two threads use a class (or the varint helpers) for the first time at once in a pristine interpreter; a line-level scheduler (vf/tsched.py) owns the interleaving and sweeps the single preemption points; each thread must get the sequential answer."
+_MORE7 = {
+    "C01": _THR + " Message classes defined by inheritance (subclass adding fields, subclass of a subclass, behaviour-only subclass, each used first in turn) are judged by the reference; in-place histories with a SIZE_DELIMITED clause.",
+    "C02": _THR + " The re-encoder inserts unknown (proto2) groups, also recursive ones.",
+    "C03": " More fixed shapes: import public, colliding oneof names, enum-only packages; enum value names like _MAX_ / real / name.",
+    "C04": _THR + " One sub-message object referenced from several places of a message.",
+    "C05": _THR + " Enum values are handed over as members, bare ints and named members of another enum class.",
+    "C07": _THR,
+    "C08": _THR + " The older and the newer plugin output of one package run side by side in a pristine interpreter (vf/props/_twover.py).",
+    "C09": " The inheritance target with len / delimited dump as first use.",
+    "C10": " In-place histories with the SIZE_DELIMITED clause; frames beyond 64 KiB cut at every record boundary and at the 64 KiB marks.",
+    "C12": " Runs of 31-70 items (what a receiver does every n-th time).",
+    "C14": " Observers compare the message with different messages of its class; bytes fields may be bytearrays.",
+    "C15": " Instances of subclasses of datetime / timedelta.",
+    "C16": _THR + " Texts starting with U+FEFF.",
+    "C17": " Payloads beyond 64 KiB cut far behind their start; an enum field must hold a member of the declared enum class (or a bare int).",
+    "C18": " The shadowing probe runs name by name (known finding narrowed to the name / option pairs failing on the unchanged tree).",
+    "C19": _THR,
+    "C20": _THR + " Member names that are attributes of int, sunder names, a prefixed twin (ALERT_HIGH next to HIGH), named enum classes; Words' maps of two enums; foreign members.",
+}
+for _pid, _t in _MORE7.items():
+    CHECKS[_pid]["text"] += _t
